@@ -877,6 +877,25 @@ theorem cleanup_mem {α : Type} (valid : α → Bool) (l : List α) (x : α) :
 theorem cleanup_order {α : Type} (valid : α → Bool) (l : List α) : (removeUnknown valid l).Sublist l := by
   rw [cleanup_exact]; exact List.filter_sublist
 
+/-- **`ifdata_cleanup()` at every place an IF_DATA block can stand**: each of the lists of the module - its own, and those
+    of every MEMORY_LAYOUT, MEMORY_SEGMENT, AXIS_PTS, BLOB, CHARACTERISTIC, FRAME, FUNCTION, GROUP, INSTANCE and
+    MEASUREMENT - keeps exactly its valid blocks, in their order, and no list appears or disappears -/
+theorem cleanup_all_hosts {α : Type} (valid : α → Bool) (h : Hosts α) :
+    (h.cleanup valid).lists = h.lists.map (List.filter valid) := by
+  have hf : removeUnknown valid = List.filter valid := funext (removeUnknown_eq_filter valid)
+  simp only [Hosts.cleanup, Hosts.lists, hf, List.map_append, List.map_cons, List.map_nil]
+
+/-- ... hence nothing invalid is left anywhere and nothing valid is lost anywhere -/
+theorem cleanup_all_hosts_mem {α : Type} (valid : α → Bool) (h : Hosts α) (x : α) :
+    (∃ l ∈ (h.cleanup valid).lists, x ∈ l) ↔ (∃ l ∈ h.lists, x ∈ l) ∧ valid x = true := by
+  rw [cleanup_all_hosts]
+  constructor
+  · rintro ⟨l, hl, hx⟩
+    obtain ⟨l0, hl0, rfl⟩ := List.mem_map.1 hl
+    exact ⟨⟨l0, hl0, (List.mem_filter.1 hx).1⟩, (List.mem_filter.1 hx).2⟩
+  · rintro ⟨⟨l, hl, hx⟩, hv⟩
+    exact ⟨l.filter valid, List.mem_map.2 ⟨l, hl, rfl⟩, List.mem_filter.2 ⟨hx, hv⟩⟩
+
 example : removeUnknown (fun p : Nat × Bool => p.2) [(1, true), (2, false), (3, true)] = [(1, true), (3, true)] := by
   decide
 
